@@ -265,12 +265,12 @@ Fixpoint decode_stream (meths : list bytes) (wire : bytes) : option (list respon
 
 (* the client asked for the connection to be closed after this request (RFC 9112 9.3, 9.6):
    a "close" connection option, or HTTP/1.0 (or older) without "keep-alive" *)
-Definition split_commas (l : bytes) : list bytes :=
-  (fix go (cur : bytes) (l : bytes) : list bytes :=
-     match l with
-     | [] => [rev cur]
-     | c :: t => if c =? 44 then rev cur :: go [] t else go (c :: cur) t
-     end) [] l.
+Fixpoint split_commas_aux (cur : bytes) (l : bytes) : list bytes :=
+  match l with
+  | [] => [rev cur]
+  | c :: t => if c =? 44 then rev cur :: split_commas_aux [] t else split_commas_aux (c :: cur) t
+  end.
+Definition split_commas (l : bytes) : list bytes := split_commas_aux [] l.
 Definition options_of (vals : list bytes) : list bytes :=
   flat_map (fun v => map strip_ows (split_commas (map lower_c v))) vals.
 Definition has_option (o : bytes) (vals : list bytes) : bool := existsb (beq o) (options_of vals).
